@@ -19,6 +19,13 @@ REUSE = {"C01": 6, "C02": 40, "C03": 3, "C04": 3, "C05": 10, "C06": 10, "C08": 6
 
 def gen(tier, rng):
     yield from _auto.make_gen("C16")(tier, rng)
+    # counters preset through hooks (sign / lane boundaries of the SIMD counter handling)
+    try:
+        from gens import blake2 as _b2
+        for line, kind in _b2.gen_C20_counter(tier, rng):
+            yield (line, "blake2:" + kind)
+    except ImportError:
+        pass
     for prop, stride in REUSE.items():
         k = stride if tier == "quick" else max(1, stride // 3)
         for i, (line, kind) in enumerate(_auto.make_gen(prop, also=False)("quick", rng)):
